@@ -5,7 +5,7 @@
     - spyne/model/complex.py: get_simple_type_info_with_prot (path table);
     - spyne/server/wsgi.py: _parse_qs (with urllib.parse.unquote on its ASCII fragment).
     Primitive leaves are kept as their text (the leaf codecs are C08's subject). *)
-From SpyneV Require Export Base.Prelude.
+From SpyneV Require Export Base.Prelude Base.Digits.
 
 (* ------------------------------------------------------------------ dicts *)
 (** a Python dict with int keys, as an association list in insertion order *)
@@ -76,8 +76,9 @@ Definition arr_step (st : list (Z * Z) * list Z) (nidx : Z) : list (Z * Z) * lis
 Definition arr_run (idxs : list Z) : list (Z * Z) * list Z := fold_left arr_step idxs ([], []).
 
 (* ------------------------------------------------------------------ keys *)
-Definition is_dig (c : Z) : bool := (48 <=? c) && (c <=? 57).
-Definition dval (ds : text) : Z := fold_left (fun a c => a * 10 + (c - 48)) ds 0.
+(** [0-9] and int() of a run of ASCII digits: Base.Digits.is_digit / val_digits *)
+Definition is_dig (c : Z) : bool := is_digit c.
+Definition dval (ds : text) : Z := val_digits 0 ds.
 
 (** tokens of a flat key under RE_HTTP_ARRAY_INDEX = r"\[([0-9]+)]" (leftmost,
     non-overlapping matches): literal characters and matched index groups *)
@@ -298,12 +299,8 @@ Definition erase_obj (fs : list (text * val)) : list (text * val) :=
 (* ------------------------------------------------------------------ object_to_simple_dict *)
 Inductive fval := FOne (s : text) | FMany (l : list text) | FEmpty.   (* value, list, 'empty' *)
 
-Fixpoint str_nat_fuel (fuel : nat) (n : Z) (acc : text) : text :=
-  match fuel with
-  | O => acc
-  | S f => if n <? 10 then (48 + n) :: acc else str_nat_fuel f (n / 10) ((48 + n mod 10) :: acc)
-  end.
-Definition str_idx (n : Z) : text := str_nat_fuel (S (Z.to_nat (Z.log2 n))) n [].
+(** '%d' % i for i >= 0: Base.Digits.str_nat *)
+Definition str_idx (n : Z) : text := str_nat n.
 
 Definition with_idx (name : text) (i : Z) : text := name ++ [91] ++ str_idx i ++ [93].   (* '%s[%d]' *)
 
